@@ -410,8 +410,12 @@ def run_catalogue(shard, res, rng):
     # getslice
     for shape in [(3,), (2, 3), (2, 3, 2), (4,)]:
         idxs = [(0,), (-1,), (slice(1, None),), (slice(None, 2),), (slice(None, None, 2),), (slice(1, 3, 2),), (Ellipsis, 0), (Ellipsis, slice(0, 1)), (None,), (Ellipsis, None), (slice(None), ), (Ellipsis,)]
+        # empty and boundary slices: stop 0, start == stop, start beyond the end, negative bounds, negative steps
+        idxs += [(slice(None, 0),), (slice(2, 0),), (slice(0, 0, 2),), (slice(1, 1),), (slice(5, None),), (slice(-2, None),), (slice(None, -1),), (slice(None, None, -1),),
+                 (slice(-1, 0, -1),), (Ellipsis, slice(1, 0)), (None, slice(None, 0))]
         if len(shape) >= 2:
-            idxs += [(0, 1), (slice(None), 0), (1, Ellipsis), (slice(0, 1), slice(1, 3)), (Ellipsis, 1, slice(None)), (None, 0), (0, None, slice(1, None))]
+            idxs += [(slice(None), slice(None, 0)), (slice(0, 0), 1), (slice(None, 0), slice(None, 0)),
+                     (0, 1), (slice(None), 0), (1, Ellipsis), (slice(0, 1), slice(1, 3)), (Ellipsis, 1, slice(None)), (None, 0), (0, None, slice(1, None))]
         for idx in idxs:
             cases.append(("un", "getslice", (("index", idx),), [("real", shape)]))
             cases.append(("un", "getslice", (("index", idx),), [(3, shape)]))
